@@ -131,10 +131,17 @@ def s_int(x=0):
             return Num(int(x.t))  # truncation toward zero (A2)
         if x.is_int:
             return x
-        # truncation toward zero of a real: floor for x >= 0, ceil for x < 0
-        t = x.zr()
-        fl = z3.ToInt(t)
-        return Num(z3.If(t >= 0, fl, z3.If(z3.ToReal(fl) == t, fl, fl + 1)))
+        # truncation toward zero of a real (A2).  The integer is introduced as a fresh symbol k
+        # whose defining fact  k <= x < k+1  (x >= 0 must be provable) is kept OUT of the path
+        # condition (it would mix nonlinear reals into the index arithmetic); obligations that
+        # need it take it from run.int_defs.
+        run = engine()
+        if run.feasible((x < 0).z()):
+            raise Undecided("int() of a real that may be negative")
+        k = sym.fresh_int("trunc")
+        run.assume(k >= 0)
+        run.int_defs.append((k, x))
+        return k
     if isinstance(x, SBool):
         return num(x)
     return _b.int(x)
